@@ -277,6 +277,13 @@ def run_obligation(ob, scratch, tier, kf_defines, prop=None):
            "-I", os.path.join(VERIF, "spec"), "-I", os.path.join(VERIF, "harness")]
     harness = os.path.join(VERIF, "harness", ob["harness"])
     entry = ob.get("entry", "harness")
+    if ob.get("gen_cmd"):      # generated contract text (e.g. the dispatch contract from the production comments of the staged source)
+        gcmd = [c.replace("{VERIF}", VERIF).replace("{SCRATCH}", scratch).replace("{VDIR}", vdir).replace("{WD}", wd) for c in ob["gen_cmd"]]
+        rc, out, err = sh(gcmd, wd, 120, 0, res["log"])
+        if rc != 0:
+            res["reason"] = "contract generator failed: " + (out + err)[-600:]
+            return res
+        inc += ["-I", wd]
     tmo = resolve(ob.get("timeout_s", 600), tier)
     mem = resolve(ob.get("mem_gb", 8), tier)
     log = res["log"]
@@ -330,7 +337,10 @@ def run_obligation(ob, scratch, tier, kf_defines, prop=None):
         gi += ["--dfcc", entry]
         for f in ob.get("enforce", []):
             gi += ["--enforce-contract-rec" if ob.get("rec") else "--enforce-contract", f]
+        no_twin = any(re.search(r": 0 self-calls redirected", x) for x in injected)
         for g in ob.get("replace", []):
+            if no_twin and "__rec" in g:
+                continue          # the function is not self-recursive: there is no twin to replace
             gi += ["--replace-call-with-contract", g]
         if ob.get("loops") or ob.get("apply_loop_contracts"):
             gi += ["--apply-loop-contracts"]
